@@ -386,6 +386,11 @@ func genExtracted(b *strings.Builder, root, authp, httpio *pkg) {
 	w("Definition callsites_reverseClientBuilder : list string := %s.", strList(callSites(root, "reverseClientBuilder")))
 	w("Definition handleWS_builder_call : string := %s.", coqStr(builderCall(root)))
 	w("Definition client_handler_setup : list string := %s.", strList(assignsIn(root, "websocketClient", []string{"sc.methodNameFormatter", "h.aliasedMethods"})))
+	w("(* keepalive *)")
+	w("Definition nextMessage_resets_before_read : bool := %s.", coqBool(callBefore(root, "nextMessage", "c.resetReadDeadline", "c.conn.NextReader")))
+	w("Definition ping_handler_answers_pong : bool := %s.", coqBool(pingHandlerPongs(root)))
+	w("Definition default_client_ping_timeout : Z * Z := (%s, %s).", coqZ(defaultOf(root, "defaultConfig", "pingInterval")), coqZ(defaultOf(root, "defaultConfig", "timeout")))
+	w("Definition default_server_ping : Z := %s.", coqZ(defaultOf(root, "defaultServerConfig", "pingInterval")))
 	w("")
 	w("(* package auth *)")
 	sh := authp.funcDecl("Handler", "ServeHTTP")
@@ -791,4 +796,69 @@ func builderCall(p *pkg) string {
 		return true
 	})
 	return out
+}
+
+func callBefore(p *pkg, fn, first, second string) bool {
+	fd := p.anyFunc(fn)
+	if fd == nil {
+		die("%s not found", fn)
+	}
+	var a, b token.Pos
+	ast.Inspect(fd.Body, func(n ast.Node) bool {
+		if ce, ok := n.(*ast.CallExpr); ok {
+			s := exprString(ce.Fun)
+			if s == first && a == 0 {
+				a = ce.Pos()
+			}
+			if s == second && b == 0 {
+				b = ce.Pos()
+			}
+		}
+		return true
+	})
+	return a != 0 && b != 0 && a < b
+}
+
+func pingHandlerPongs(p *pkg) bool {
+	fd := p.funcDecl("wsConn", "setupPings")
+	if fd == nil {
+		die("setupPings not found")
+	}
+	ok := false
+	ast.Inspect(fd.Body, func(n ast.Node) bool {
+		ce, isCall := n.(*ast.CallExpr)
+		if !isCall || !strings.HasSuffix(exprString(ce.Fun), "SetPingHandler") || len(ce.Args) != 1 {
+			return true
+		}
+		ast.Inspect(ce.Args[0], func(m ast.Node) bool {
+			if c2, ok2 := m.(*ast.CallExpr); ok2 && strings.HasSuffix(exprString(c2.Fun), "WriteControl") && len(c2.Args) > 0 && exprString(c2.Args[0]) == "websocket.PongMessage" {
+				ok = true
+			}
+			return true
+		})
+		return true
+	})
+	return ok
+}
+
+func defaultOf(p *pkg, fn, field string) int64 {
+	fd := p.anyFunc(fn)
+	if fd == nil {
+		die("%s not found", fn)
+	}
+	var val int64
+	found := false
+	ast.Inspect(fd.Body, func(n ast.Node) bool {
+		if kv, ok := n.(*ast.KeyValueExpr); ok {
+			if id, ok := kv.Key.(*ast.Ident); ok && id.Name == field {
+				val = p.evalInt(kv.Value)
+				found = true
+			}
+		}
+		return true
+	})
+	if !found {
+		die("default %s.%s not found", fn, field)
+	}
+	return val
 }
